@@ -151,7 +151,25 @@ def with_auth(limits, ev):
 
 
 def gen_targeted():
-    return [(l, with_auth(l, ev)) for l, ev in gen_targeted_raw()] + gen_targeted_auth() + gen_targeted_reload()
+    return [(l, with_auth(l, ev)) for l, ev in gen_targeted_raw()] + gen_targeted_auth() + gen_targeted_reload() + gen_targeted_padding()
+
+
+def gen_targeted_padding():
+    """the size test at the byte level: total wire length = 16 + header field array + 0..7 bytes of padding + body.  For every
+    padding, both byte orders, a registered and an unregistered sender: every length from max-9 to max passes (sender
+    still served), then one of max+1..max+9 closes the sender and nobody else"""
+    out = []
+    msg = 600
+    for pad in range(8):
+        for bo in "LB":
+            for over in range(1, 10):
+                fit = ["M%d,%d,%d,%s" % (1, msg - k, pad, bo) for k in (9, 8, 7, 3, 1, 0)]
+                ev = ["C0", "U0", "H0", "C1", "U1", "H1", "A0,1"] + fit + ["E1,1", "M1,%d,%d,%s" % (msg + over, pad, bo), "N", "E0,1"]
+                out.append((lim(msg=msg), ev))
+                ev = ["C0", "U0", "H0", "C1", "U1", "M1,%d,%d,%s" % (msg - over + 1, pad, bo), "M1,%d,%d,%s" % (msg, (pad + 3) % 8, bo),
+                      "M1,%d,%d,%s" % (msg + over, pad, bo), "C1", "U2", "H2", "N"]
+                out.append((lim(msg=msg, incomplete=1), ev))
+    return out
 
 
 def gen_targeted_reload():
@@ -431,7 +449,7 @@ def gen_random(rnd, length):
             if c == 0:
                 size = min(size, sh.maxmsg[0])
             gone = size > sh.maxmsg[c]
-            emit("M%d,%d" % (c, size))
+            emit("M%d,%d,%d,%s" % (c, size, rnd.randrange(8), rnd.choice("LB")))
             if gone:
                 forget(c)
         else:
@@ -837,7 +855,7 @@ def run(ctx):
         "evaluations": len(cases), "distinct_nontrivial": len(nontrivial),
         "rule": "corpus (incl. the two refutation witnesses); targeted fill / refuse / free / refill histories for each of the six count limits at values 1-4 (free by release, leaving a queue, "
                 "replacement with DO_NOT_QUEUE, RemoveMatch, reply, callee or caller disconnect, Hello, disconnect, being thrown out), messages of "
-                "max-8..max+9 and 3*max bytes by registered and unregistered senders; authenticated-but-unregistered and unauthenticated connections holding "
+                "max-8..max+9 and 3*max bytes by registered and unregistered senders; every header padding 0..7 x both byte orders x lengths max-9..max+9 (288 histories); authenticated-but-unregistered and unauthenticated connections holding "
                 "incomplete slots; calls carrying a REPLY_SERIAL refused at the limit / as duplicates; configuration reloads in mid-history (ReloadConfig after rewriting the file) "
                 "that put every count at, one below and one above the new limit, raise / lower max_incomplete_connections while accepting is paused / on (incl. the "
                 "daemon's assertion), change max_message_size under old and new connections; one reply-timeout history; random histories of 15-40 events (40% with reloads) "
